@@ -370,6 +370,8 @@ def _auth_atoms(st, resolver_name=None):
             out["scheme"] = v[1]
         elif v[0] == "bool" and k[0] == "is" and "Scheme::HTTPS" in r:
             out["https"] = v[1]
+        elif v[0] == "bool" and k[0] in ("call", "app") and "PartialEq" in k[1] and "('named', 'Scheme::HTTPS')" in r:
+            out["https"] = v[1]         # `*s == Scheme::HTTPS` on the unwrapped scheme
         elif v[0] == "nc" and "Uri::scheme" in repr(k):
             if v[1] == frozenset(["Scheme::HTTPS"]):
                 out["https"] = True
@@ -462,8 +464,9 @@ def rule_c14(ctx):
         if ctx.require(fname, "R14.3", "override-field", "Option<Uri> override field read by the effective URI accessor"):
             acc = field_accesses(prog, "AmendedRequest<", fname)
             writers = sorted(set(b.short for b, i, k, d in acc if k != "read"))
-            wcallers = sorted(set(b.short for b in prog.nonderived_bodies() for _, t in b.calls()
-                                  if len(writers) == 1 and short(callee_path(t) or "") == writers[0]))
+            from .panics import public_api, reachable_from
+            wb = prog.find(writers[0]) if len(writers) == 1 else None
+            wcallers = sorted(a_.short for a_ in public_api(prog) if wb is not None and wb.id in set(x.id for x in reachable_from(prog, [a_])))
             ctx.check(len(writers) == 1 and wcallers == ["Flow::<B, Redirect>::as_new_flow"], "R14.3", "override-writers",
                       "the URI override is written by one setter only, called only while following a redirect (nothing resets or "
                       "rewrites the current URI between hops)", detail=["writers %s" % writers, "callers %s" % wcallers])
@@ -742,10 +745,12 @@ def rule_c13_list_append_only(ctx):
               "the suppression list `%s` is only appended to (by %s) and read by the predicate; nothing removes or replaces an entry" % (
                   name, ", ".join(pushers)), loc=body_loc(hd), detail=bad[:4] + (["pushers: %s" % pushers] if len(pushers) != 1 else []))
     # the un-setter is called only by the redirect-following function
-    callers = sorted(set(b.short for b in prog.nonderived_bodies() for _, t in b.calls()
-                         if pushers and short(callee_path(t) or "") == pushers[0]))
-    ctx.check(callers == ["Flow::<B, Redirect>::as_new_flow"], R, "unset-callers", "the un-setter is called only while following a redirect",
-              detail=callers)
+    # which public calls can reach the un-setter (directly or through helpers)
+    from .panics import public_api, reachable_from
+    pb = prog.find(pushers[0]) if pushers else None
+    roots = sorted(a_.short for a_ in public_api(prog) if pb is not None and pb.id in set(x.id for x in reachable_from(prog, [a_])))
+    ctx.check(roots == ["Flow::<B, Redirect>::as_new_flow"], R, "unset-callers", "the un-setter is reached only while following a redirect",
+              detail=roots)
 
 
 C13_RULES = [rule_c13, rule_c13_filter, rule_c13_list_append_only]
